@@ -260,8 +260,8 @@ class NegativeConditionsRemover(engines.engine.Engine, CompilerMixin):
         new_kind = problem_kind.clone()
         if new_kind.has_negative_conditions():
             new_kind.unset_conditions_kind("NEGATIVE_CONDITIONS")
-            if new_kind.has_equalities():
-                new_kind.set_conditions_kind("DISJUNCTIVE_CONDITIONS")
+            # negated equalities, conjunctions and equivalences become disjunctions
+            new_kind.set_conditions_kind("DISJUNCTIVE_CONDITIONS")
         return new_kind
 
     def _compile(
